@@ -58,7 +58,7 @@ def _prefetch_corpus():
     for path in sorted(glob.glob(os.path.join(here, "corpus", "C16", "*.case"))):
         for line in open(path).read().split("\n"):
             line = line.strip()
-            if line.startswith(("newbot ", "tbot ")) or line in ("newbot", "tbot"):
+            if line.split(" ")[0] in ("newbot", "newbotk", "tbot"):
                 tcimpl.prefetch(line)
 
 
@@ -69,7 +69,7 @@ def _fill(rng):
     lines = []
     for i in range(BATCH):
         if i % CLI_EVERY == CLI_EVERY - 1:
-            mode = rng.choice(["newbot", "tbot"])
+            mode = rng.choice(["newbot", "newbotk", "tbot"])
         else:
             mode = "ip"
         lines.append(tcgen.gen_case(rng, mode).line())
@@ -163,7 +163,7 @@ def exhaustive(params):
     pair with all guards, child forms and endings."""
     labs = [(g, f, e) for g in tcgen.GUARDS for f in tcgen.FORMS for e in tcgen.FINS]
     cli_lines = []
-    for mode in ("newbot", "tbot"):
+    for mode in ("newbot", "newbotk", "tbot"):
         rl = [("n", f, e) for f in "dm" for e in tcgen.FINS]
         for n in (0, 1, 2):
             for combo in itertools.product(rl, repeat=n):
